@@ -93,6 +93,7 @@ def run(R, ctx):
     initialize(R, ctx)
     log_reports(R, ctx, ed)
     panics(R, ctx, sites)
+    error_channel(R, ctx)
 
 
 class _Only:
@@ -198,3 +199,186 @@ def panics(R, ctx, sites):
             R.ok('R19.6', key, f"{tri[0]}: {tri[1]}")
         else:
             R.bad('R19.6', key, f"unwrap/expect on the result of {n} in {b.path}: the failure panics instead of being returned or reported", where=b.loc(bb))
+
+
+# ------------------------------------------------------------------------------------------------ R19.7 the error channel itself
+WRITE_RX = r'Write>::write_fmt$|Write::write_fmt$|Write>::write_all$|Write::write_all$|Write>::write$|Write::write$'
+
+
+def _dest_of(x):
+    """which stream does the receiver expression of a write denote: stderr / stdout / file (result of an OpenOptions::open | File::create) / ?"""
+    from table import subterms
+    kinds = set()
+    for t in subterms(x):
+        if len(t) >= 2 and t[0] in ('eff', 'call') and isinstance(t[1], str):
+            n = t[1].replace('fn:', '')
+            if n == 'std::io::stderr':
+                kinds.add('stderr')
+            elif n == 'std::io::stdout':
+                kinds.add('stdout')
+            elif re.search(r'^std::fs::OpenOptions::open$|^std::fs::File::(create|options|open)$', n):
+                kinds.add('file')
+    return kinds
+
+
+def error_channel(R, ctx):
+    """`reported on the configured error channel`, for every error channel kind: the one function every report passes through writes the
+    message to stderr for StdErr, to stdout for StdOut, appends it to the configured file for File(path), and writes nothing for DevNull;
+    eprint_err / eprint_msg hand their text (message and cause) to it exactly once; the channel installed at start is the configured one."""
+    from fdi import FDI, Agg
+    from table import inputs_in, subterms
+    f = ctx.f
+    R.rule('R19.7', 'TABLE(error channel kind -> destination of the report); reporters pass message and cause on exactly once; configured channel installed')
+    b = ctx.body(r'^util::try_writing_to_error_channel$')
+    pname = b.locals[1].get('name') or 'arg1'
+    EFF = [r'^std::io::stderr$', r'^std::io::stdout$', WRITE_RX, r'^std::fs::OpenOptions::\w+$', r'^std::fs::File::(create|open|options)$', r'^util::handle_error_error$']
+    rows = FDI(f, effects=EFF, max_rows=4000).run(b.path)
+    seen = {}
+    bad = None
+    for r in rows:
+        if r.undecided:
+            raise CheckError(f"R19.7: error-channel table undecided: {r.undecided}")
+        ch = [v for a, v in r.cond if r.atom_info.get(a, {}).get('kind') == 'variant' and 'ErrorChannel' in (r.atom_info[a].get('ty') or '')]
+        if len(ch) != 1:
+            raise CheckError(f"R19.7: a path through {b.path} examines the error channel {len(ch)} times (form not recognised)")
+        ch = ch[0]
+        failed = any(v == 'Err' for a, v in r.cond if r.atom_info.get(a, {}).get('kind') == 'variant' and re.search(r'OpenOptions::open|write_fmt|write_all|flush|File::', a))
+        dests = []
+        chain = {}
+        for e in r.effects:
+            nm = e[0].split('::')[-1]
+            if e[0].startswith('std::fs::OpenOptions::'):
+                if nm == 'new':
+                    chain = {}
+                elif nm == 'open':
+                    chain['_path'] = e[2]['x'][1]
+                else:
+                    chain[nm] = e[1][1] if len(e[1]) > 1 else 'True'
+            if re.search(WRITE_RX, e[0]):
+                d = _dest_of(e[2]['x'][0])
+                carries = any(pname in inputs_in(x) for x in e[2]['x'][1:])
+                if carries:
+                    dests.append((sorted(d)[0] if len(d) == 1 else '?', dict(chain)))
+        seen.setdefault(ch, 0)
+        seen[ch] += 1
+        kinds = [d for d, _ in dests]
+        if ch == 'StdErr' and kinds != ['stderr']:
+            bad = bad or f"ErrorChannel::StdErr: the report is written to {kinds or 'nothing'} (documented: to stderr, once)"
+        elif ch == 'StdOut' and kinds != ['stdout']:
+            bad = bad or f"ErrorChannel::StdOut: the report is written to {kinds or 'nothing'} (documented: to stdout, once)"
+        elif ch == 'DevNull' and (kinds or any(re.search(WRITE_RX, e[0]) for e in r.effects)):
+            bad = bad or f"ErrorChannel::DevNull: something is written ({kinds}) although the channel is documented to suppress the messages"
+        elif ch == 'File':
+            if '?' in kinds or 'stdout' in kinds:
+                bad = bad or f"ErrorChannel::File: the report is written to {kinds}"
+            if not failed:
+                if kinds != ['file']:
+                    bad = bad or f"ErrorChannel::File, every operation successful: the report is written to {kinds or 'nothing'} (documented: to the specified file)"
+                else:
+                    fl = dests[0][1]
+                    flags = {k: v for k, v in fl.items() if k != '_path'}
+                    if '_path' in fl:     # opened through OpenOptions: never truncate the reports of earlier failures, path = the payload of the channel
+                        if flags.get('append') != 'True' or flags.get('truncate') == 'True' or 'create_new' in flags or flags.get('create') != 'True':
+                            bad = bad or f"ErrorChannel::File: the file is opened with {flags}; earlier reports must survive (create + append)"
+                        if not any(t[0] == 'field' and 'ErrorChannel' in repr(t) or (t[0] == 'field' and t[2] == '0') for t in subterms(fl['_path']) if len(t) == 3):
+                            bad = bad or "ErrorChannel::File: the file opened is not the path carried by the configured channel"
+            elif 'file' not in kinds and 'stderr' not in kinds and not any(k == 'file' for k in kinds):
+                pass      # what happens when the channel itself is broken is not part of the property (handle_error_error)
+        elif ch not in ('StdErr', 'StdOut', 'File', 'DevNull'):
+            raise CheckError(f"R19.7: unknown error channel kind {ch}")
+    variants = [v['name'] for v in f.adts['logger::ErrorChannel']['variants']]
+    missing = [v for v in variants if v not in seen]
+    if missing and not bad:
+        bad = f"error channel kinds {missing} are not handled by {b.path}"
+    R.check('R19.7', f"{b.path}|channel-table", not bad, f"{len(rows)} rows over {sorted(seen)}: each kind writes the report to its documented destination",
+            f"{bad}: failures are not reported on the configured error channel", where=b.loc(), sample={'rows': len(rows), 'kinds': seen})
+    # the reporters
+    for fn, need in (('util::eprint_err', ('msg', 'err')), ('util::eprint_msg', ('msg',))):
+        rb = ctx.body('^' + fn + '$')
+        names = [rb.locals[i].get('name') for i in range(1, rb.arg_count + 1)]
+        want = [n for n in names if n in need]
+        if len(want) != len(need):      # parameters renamed: text-like parameters by type
+            want = [names[i - 1] for i in range(1, rb.arg_count + 1) if re.search(r'^&(str|dyn std::error::Error|std::string::String)', rb.locals[i]['ty'])]
+        rws = FDI(f, effects=[r'^util::try_writing_to_error_channel$']).run(rb.path)
+        bad2 = None
+        for r in rws:
+            if r.undecided:
+                raise CheckError(f"R19.7: {fn} undecided: {r.undecided}")
+            calls = [e for e in r.effects if e[0] == 'util::try_writing_to_error_channel']
+            if len(calls) != 1:
+                bad2 = f"{fn} hands its text to the error channel {len(calls)} times on some path (documented: every failure is reported, once)"
+                break
+            ins = set()
+            for x in calls[0][2]['x']:
+                ins |= inputs_in(x)
+            lost = [w for w in want if w not in ins]
+            if lost:
+                bad2 = f"{fn}: the text written to the error channel does not contain the parameter(s) {lost}: the report does not say what failed / why"
+                break
+        R.check('R19.7', f"{fn}|passes-text-on", not bad2 and len(want) >= len(need), f"{len(rws)} rows: one report containing {want}", f"{bad2}", where=rb.loc())
+    # the configured channel is the one installed: set_error_channel stores its parameter; Logger::build passes its own field
+    sb = ctx.body(r'^util::set_error_channel$')
+    stores = 0
+    for bb in sorted(sb.normal_blocks()):
+        for s in sb.blocks[bb]['stmts']:
+            if s['k'] == 'assign' and s['place']['p'] and s['place']['p'][-1]['k'] == 'deref' and s['rv']['k'] == 'use' and \
+               s['rv']['op']['k'] in ('move', 'copy') and 'ErrorChannel' in sb.local_ty(s['place']['l']) and _roots(sb, s['rv']['op']['place']) == {1}:
+                stores += 1
+        t = sb.blocks[bb]['term']
+        if t['k'] == 'call' and re.search(r'^std::mem::(replace|swap)', callee_name(t)) and any(a['k'] in ('move', 'copy') and a['place']['l'] == 1 for a in t['args']):
+            stores += 1
+    if not stores:
+        raise CheckError("R19.7: set_error_channel: no store of the parameter into the channel found (form not recognised)")
+    callers = [(x, bb) for x in f.fn_bodies() for bb, t in x.calls() if callee_name(t) == 'util::set_error_channel']
+    okc = 0
+    badc = None
+    for x, bb in callers:
+        a = x.blocks[bb]['term']['args'][0]
+        flds = _arg_fields(x, bb, a)
+        if any('error_channel' in fl_ for fl_ in flds):
+            okc += 1
+        else:
+            badc = f"{x.path} installs an error channel that is not the configured one (argument derives from {sorted(flds) or 'no field of the builder'})"
+    R.check('R19.7', "set_error_channel|configured", callers and not badc, f"{okc} call site(s) pass the builder's error_channel field", f"{badc or 'set_error_channel is never called'}",
+            where=sb.loc())
+
+
+def _arg_fields(b, bb, a):
+    """field names of `self` (local 1) that flow into operand a at block bb (moves/copies within the body, field-sensitive one level)"""
+    if a['k'] not in ('move', 'copy'):
+        return set()
+    out = set()
+    _roots(b, a['place'], out)
+    return out
+
+
+def _roots(b, place, fields_of_self=None):
+    """parameters (local numbers) a place's value is moved / copied / borrowed / cloned from, through temporaries of the body"""
+    roots = set()
+    work = [place]
+    seen = set()
+    while work:
+        pl = work.pop()
+        key = (pl['l'], tuple(e.get('name') or e['k'] for e in pl['p']))
+        if key in seen:
+            continue
+        seen.add(key)
+        if 1 <= pl['l'] <= b.arg_count:
+            roots.add(pl['l'])
+            if pl['l'] == 1 and fields_of_self is not None:
+                fields_of_self |= {e['name'] for e in pl['p'] if e['k'] == 'field' and e.get('name')}
+            continue
+        for i in b.normal_blocks():
+            for s in b.blocks[i]['stmts']:
+                if s['k'] == 'assign' and s['place']['l'] == pl['l'] and not s['place']['p']:
+                    rv = s['rv']
+                    if rv['k'] == 'use' and rv['op']['k'] in ('move', 'copy'):
+                        work.append(rv['op']['place'])
+                    elif rv['k'] == 'ref':
+                        work.append(rv['place'])
+            t = b.blocks[i]['term']
+            if t['k'] == 'call' and t['dest']['l'] == pl['l'] and re.search(r'clone$|take$|replace$', callee_name(t)):
+                for x in t['args']:
+                    if x['k'] in ('move', 'copy'):
+                        work.append(x['place'])
+    return roots
